@@ -2,3 +2,5 @@ import KcpVerif.Generated
 import KcpVerif.Model.Ring
 import KcpVerif.Props.C20
 import KcpVerif.Model.Wait
+import KcpVerif.Lemmas.Wait
+import KcpVerif.Props.C13
